@@ -75,6 +75,11 @@ def check_cli(case, spec=None):
             cmd_run.impute(src, out, "reaction", ["tag"], case.get("threshold", 0), n_jobs=1,
                            batch_size=case.get("batch_size"))
         except Exception as e:
+            if isinstance(e, (ValueError, KeyError, TypeError)) and not pp.valid_input(case["reactions"][0]) \
+                    and not os.path.exists(out):
+                # the CLI validates the first row and refuses the file cleanly (accepted, see C05)
+                res.tag("cli-first-row-rejected")
+                return res
             res.fail("cli-raises:" + type(e).__name__, "cli", error=str(e)[:300], reactions=case["reactions"],
                      batch_size=case.get("batch_size"))
             return res
